@@ -22,8 +22,15 @@ import time
 VERIF = os.path.dirname(os.path.dirname(os.path.abspath(__file__)))
 
 
-def sh(cmd, **kw):
-    return subprocess.run(cmd, shell=True, capture_output=True, text=True, **kw)
+def sh(cmd, timeout=3000, **kw):
+    try:
+        return subprocess.run(cmd, shell=True, capture_output=True, text=True, timeout=timeout, **kw)
+    except subprocess.TimeoutExpired as e:
+        class R:
+            returncode = 124
+            stdout = (e.stdout or b"").decode() if isinstance(e.stdout, bytes) else (e.stdout or "")
+            stderr = "TIMEOUT after %ss" % timeout
+        return R()
 
 
 def main():
